@@ -176,6 +176,119 @@ def drive(tier):
         dersig(bytes(m_))
     for b_ in (b"", b"\x30", b"\x31\x00", b"\x30\x00", b"\x30\x02\x02\x00", b"\x30\x04\x02\x00\x02\x00", b"\x30\x06\x02\x01\x01\x02\x01\x01", b"\x30\x05\x02\x00\x02\x00\x00"):
         dersig(b_)
+    # ---- RPC request shapes: what each Proxy method puts on the wire
+    import bitcoin.rpc as rpc
+    from bitcoin.wallet import CBitcoinAddress, P2PKHBitcoinAddress
+    from props.c19 import FakeConn
+
+    def tagged(v):
+        if isinstance(v, tuple) and v and v[0] == "AMT":
+            return {"t": "amt", "v": text(v[1])}
+        if isinstance(v, tuple) and v and v[0] == "INT":
+            return {"t": "n", "v": int(v[1])} if abs(int(v[1])) < 2 ** 31 else {"t": "amt", "v": text(v[1])}
+        if isinstance(v, tuple) and v and v[0] == "OBJ":
+            return {"t": "o", "v": [[k_, tagged(x_)] for k_, x_ in v[1]]}
+        if v is None:
+            return {"t": "null"}
+        if isinstance(v, bool):
+            return {"t": "b", "v": v}
+        if isinstance(v, str):
+            return {"t": "s", "v": text(v)}
+        if isinstance(v, list):
+            return {"t": "l", "v": [tagged(x_) for x_ in v]}
+        raise TypeError(type(v))
+
+    def parse_body(body):
+        return json.loads(body, parse_float=lambda s_: ("AMT", s_), parse_int=lambda s_: ("INT", s_),
+                          object_pairs_hook=lambda ps: ("OBJ", ps))
+    conn = FakeConn()
+    proxy = rpc.Proxy(service_url="http://u:p@localhost:8332", connection=conn)
+    conn.reply = b'{"result": null, "error": null, "id": 1}'
+    A0 = {"addr": [], "tx": gen.tx_json(gen.gen_tx(r, nin=0, nout=0)), "flag": False, "n": 0, "n2": 0, "has": False, "account": [], "hash": [], "hash2": [],
+          "label": [], "addrs": [], "outpoints": [], "sats": [], "comment": [], "commentto": [], "payments": [], "block": gen.block_json(dict(gen.gen_header(r), vtx=[]))}
+
+    def req(method, a, fn):
+        n0 = len(conn.requests)
+        call(fn)
+        aa = dict(A0)
+        aa.update(a)
+        if len(conn.requests) == n0:
+            R.add("x.rpcreq", {"method": method, "a": aa}, {"sent": False, "name": "", "params": [], "version": []})
+            return
+        top = parse_body(conn.requests[-1][2])
+        assert top[0] == "OBJ"
+        dd = dict(top[1])
+        R.add("x.rpcreq", {"method": method, "a": aa},
+              {"sent": True, "name": dd.get("method"), "params": [tagged(x_) for x_ in dd.get("params", [])], "version": text(dd.get("version", ""))})
+    for rep_ in range(3 if tier == "quick" else 20):
+        addr_o = P2PKHBitcoinAddress.from_bytes(gen.rbytes(r, 20))
+        addr2_o = P2PKHBitcoinAddress.from_bytes(gen.rbytes(r, 20))
+        addr, addr2 = str(addr_o), str(addr2_o)
+        h, h2 = gen.rbytes(r, 32), gen.rbytes(r, 32)
+        dtx = gen.gen_tx(r, nin=r.randrange(0, 3), nout=r.randrange(0, 3))
+        tx = gen.build_tx(dtx, bool(rep_ & 1))
+        txj = gen.tx_json(dtx)
+        n, n2 = r.randrange(0, 1000), r.randrange(0, 10 ** 7)
+        fl = bool(r.getrandbits(1))
+        lab = "".join(r.choice("abc xyz-_0\u00e9\u4e2d") for _ in range(r.randrange(0, 8)))
+        req("dumpprivkey", {"addr": text(addr)}, lambda: proxy.dumpprivkey(addr_o))
+        req("fundrawtransaction", {"tx": txj, "flag": fl}, lambda: proxy.fundrawtransaction(tx, fl))
+        req("generate", {"n": n}, lambda: proxy.generate(n))
+        req("generatetoaddress", {"n": n, "addr": text(addr)}, lambda: proxy.generatetoaddress(n, addr_o))
+        req("getaccountaddress", {"has": False}, lambda: proxy.getaccountaddress())
+        req("getaccountaddress", {"has": True, "account": text(lab)}, lambda: proxy.getaccountaddress(lab))
+        req("getbalance", {"account": text("*"), "n": 1, "flag": False}, lambda: proxy.getbalance())
+        req("getbalance", {"account": text(lab), "n": n, "flag": fl}, lambda: proxy.getbalance(lab, n, fl))
+        for m in ("getbestblockhash", "getblockcount", "getinfo", "getmininginfo", "getrawchangeaddress"):
+            req(m, {}, lambda: getattr(proxy, m)())
+        req("getblockheader", {"hash": b2l(h), "flag": False}, lambda: proxy.getblockheader(h))
+        req("getblockheader", {"hash": b2l(h), "flag": True}, lambda: proxy.getblockheader(h, True))
+        req("getblock", {"hash": b2l(h)}, lambda: proxy.getblock(h))
+        req("getblockhash", {"n": n2}, lambda: proxy.getblockhash(n2))
+        req("getnewaddress", {"has": False}, lambda: proxy.getnewaddress())
+        req("getnewaddress", {"has": True, "account": text(lab)}, lambda: proxy.getnewaddress(lab))
+        req("getrawmempool", {"flag": False}, lambda: proxy.getrawmempool())
+        req("getrawmempool", {"flag": True}, lambda: proxy.getrawmempool(True))
+        req("getrawtransaction", {"hash": b2l(h), "flag": fl, "has": False}, lambda: proxy.getrawtransaction(h, fl))
+        req("getrawtransaction", {"hash": b2l(h), "flag": fl, "has": True, "hash2": b2l(h2)}, lambda: proxy.getrawtransaction(h, fl, h2))
+        req("getreceivedbyaddress", {"addr": text(addr), "n": 1}, lambda: proxy.getreceivedbyaddress(addr_o))
+        req("getreceivedbyaddress", {"addr": text(addr), "n": n}, lambda: proxy.getreceivedbyaddress(addr_o, n))
+        req("gettransaction", {"hash": b2l(h)}, lambda: proxy.gettransaction(h))
+        req("gettxout", {"hash": b2l(h), "n": n, "flag": True}, lambda: proxy.gettxout(COutPoint(h, n)))
+        req("gettxout", {"hash": b2l(h), "n": n, "flag": fl}, lambda: proxy.gettxout(COutPoint(h, n), fl))
+        req("importaddress", {"addr": text(addr), "label": [], "flag": True}, lambda: proxy.importaddress(addr_o))
+        req("importaddress", {"addr": text(addr), "label": text(lab), "flag": fl}, lambda: proxy.importaddress(addr_o, lab, fl))
+        req("listunspent", {"n": 0, "n2": 9999999, "has": False}, lambda: proxy.listunspent())
+        req("listunspent", {"n": n, "n2": n2, "has": True, "addrs": [text(addr), text(addr2)]}, lambda: proxy.listunspent(n, n2, [addr_o, addr2_o]))
+        req("lockunspent", {"flag": fl, "outpoints": [{"hash": b2l(h), "n": n}, {"hash": b2l(h2), "n": 0}]},
+            lambda: proxy.lockunspent(fl, [COutPoint(h, n), COutPoint(h2, 0)]))
+        req("sendrawtransaction", {"tx": txj, "flag": False}, lambda: proxy.sendrawtransaction(tx))
+        req("sendrawtransaction", {"tx": txj, "flag": True}, lambda: proxy.sendrawtransaction(tx, True))
+        sats = r.choice([0, 1, 5, 10 ** 8, 21 * 10 ** 14, r.randrange(0, 21 * 10 ** 14)])
+        req("sendtoaddress", {"addr": text(addr), "sats": nat(sats), "comment": [], "commentto": [], "flag": False}, lambda: proxy.sendtoaddress(addr_o, sats))
+        req("sendtoaddress", {"addr": text(addr), "sats": nat(sats), "comment": text(lab), "commentto": text("to"), "flag": True},
+            lambda: proxy.sendtoaddress(addr_o, sats, lab, "to", True))
+        s2 = r.randrange(0, 21 * 10 ** 14)
+        req("sendmany", {"account": text(lab), "payments": [{"addr": addr, "sats": nat(sats)}, {"addr": addr2, "sats": nat(s2)}], "n": 1, "comment": [], "addrs": []},
+            lambda: proxy.sendmany(lab, {addr_o: sats, addr2_o: s2}))
+        req("sendmany", {"account": text(lab), "payments": [{"addr": addr2, "sats": nat(s2)}], "n": n, "comment": text("c"), "addrs": [text(addr2)]},
+            lambda: proxy.sendmany(lab, {addr2_o: s2}, n, "c", [addr2]))
+        req("signrawtransaction", {"tx": txj}, lambda: proxy.signrawtransaction(tx))
+        req("signrawtransactionwithwallet", {"tx": txj}, lambda: proxy.signrawtransactionwithwallet(tx))
+        dblk = dict(gen.gen_header(r), vtx=[gen.gen_tx(r, nin=1, nout=1) for _ in range(r.randrange(0, 3))])
+        dblk["merkle"] = bytes(32)
+        blk = gen.build_block(dblk)
+        dblk["merkle"] = bytes(blk.hashMerkleRoot)
+        req("submitblock", {"block": gen.block_json(dblk)}, lambda: proxy.submitblock(blk))
+        req("validateaddress", {"addr": text(addr)}, lambda: proxy.validateaddress(addr_o))
+        req("unlockwallet", {"label": text(lab), "n": 60}, lambda: proxy.unlockwallet(lab))
+        req("unlockwallet", {"label": text(lab), "n": n}, lambda: proxy.unlockwallet(lab, n))
+        req("createwallet", {"label": text(lab)}, lambda: proxy.createwallet(lab))
+        req("loadwallet", {"label": text(lab), "flag": False}, lambda: proxy.loadwallet(lab))
+        req("loadwallet", {"label": text(lab), "flag": True}, lambda: proxy.loadwallet(lab, True))
+        req("addnode", {"label": text("10.0.0.1:8333")}, lambda: proxy.addnode("10.0.0.1:8333"))
+        req("addnodeonetry", {"label": text("10.0.0.1:8333")}, lambda: proxy.addnodeonetry("10.0.0.1:8333"))
+        req("removenode", {"label": text("10.0.0.1:8333")}, lambda: proxy.removenode("10.0.0.1:8333"))
     return R.recs
 
 
